@@ -1,7 +1,7 @@
 // C11 — Acknowledgement by the mapper is recognised from the Discover (session-event classifier).
 #include "rcx.hpp"
 
-// cfg: [0] n stations declared, [1] p (-1 = own address absent), [2] decoy (0 none, 1 near-miss addresses, 2 own address straddling two slots),
+// cfg: [0] n stations declared, [1] p (-1 = own address absent), [2] decoy (0 none, 1 near-miss addresses, 2 own address straddling two slots, 3 all-zero/broadcast/multicast/mapper addresses as list entries),
 //      [3] table class 0..6, [4] opcode, [5] ToS, [6] real destination broadcast?, [7] held (-1 = n; else stations really inside the received length),
 //      [8] generation, [9] xid, [10] Reset/other frames: Ethernet destination broadcast? (independent of the real destination),
 //      [12] the frame's real source is this station's own address (an echo of something it sent itself) - classification must not depend on it
@@ -25,6 +25,10 @@ static Verdict run(const Case &c) {
     for (int i = 0; i < n; i++) {
         Mac m = mac_from_u64(0x0600BB000000ULL + (uint64_t)i * 0x010101ULL);
         if (decoy == 1) { m = OWN; m.b[i % 6] ^= (uint8_t)(1 << (i % 8)); }     // differs from own in exactly one bit
+        if (decoy == 3) {   // addresses with a "special" look: all-zero, broadcast, multicast, the mapper itself - list entries like any other
+            static const uint64_t sp[] = {0x000000000000ULL, 0xFFFFFFFFFFFFULL, 0x01005E000001ULL, 0x02AA00000001ULL, 0x000000000001ULL};
+            m = mac_from_u64(sp[i % 5]);
+        }
         st.push_back(m);
     }
     if (decoy == 2 && n >= 2) {   // own address at a byte offset that is not a multiple of 6
@@ -128,7 +132,7 @@ int main(int argc, char **argv) {
     Current::install(a.failing);
     Evidence ev;
     ev.rule = "derive_session_event (built without LLTD_TESTING) on harness-built frames in a malloc(1500) buffer. Enumerated: every (n, position) layout (quick: n <= 40; thorough: n <= 240, 29161 layouts) "
-              "x 11 session-table classes (null, empty, same/other transaction, other generation, other mapper, full, the matching session behind a freed slot, the matching session already complete); all 256 opcodes x real destination broadcast/unicast. Random: n 0..240, position, near-miss decoys, own address straddling two slots, "
+              "x 11 session-table classes (null, empty, same/other transaction, other generation, other mapper, full, the matching session behind a freed slot, the matching session already complete); all 256 opcodes x real destination broadcast/unicast. Random: n 0..240, position, near-miss decoys, all-zero/broadcast/multicast/mapper addresses as list entries, own address straddling two slots, "
               "count larger than the frame holds, generation/xid, ToS. non-trivial = Discover with n >= 2 and own address at index >= 1, or a decoy present; distinct = digest of the case";
     bool ok = true;
     int nmax = a.quick() ? 40 : 240;
@@ -137,7 +141,7 @@ int main(int argc, char **argv) {
         for (int p = -1; p < n && ok; p++)
             for (int t = 0; t < T_NCLASSES && ok; t++, k++) {
                 if (k % a.nshards != a.shard) continue;
-                ok = one(a, ev, {n, p, 0, t, OP_DISCOVER, n & 1, 1, -1, 0x1234, 0x0042, 1, (n + t) % 3 == 0 ? 2 : 0}, "c11-layouts");
+                ok = one(a, ev, {n, p, (n + p + t) % 4 == 0 ? 3 : 0, t, OP_DISCOVER, n & 1, 1, -1, 0x1234, 0x0042, 1, (n + t) % 3 == 0 ? 2 : 0}, "c11-layouts");
             }
     for (int opc = 0; opc < 256 && ok; opc++)
         for (int bc = 0; bc < 4 && ok; bc++) {   // real destination broadcast? x Ethernet destination broadcast?
@@ -151,7 +155,7 @@ int main(int argc, char **argv) {
             int64_t p = n == 0 ? -1 : *gx::weighted<int64_t>({{1, rc::gen::just<int64_t>(-1)}, {1, rc::gen::just<int64_t>(0)}, {1, rc::gen::just<int64_t>(n - 1)}, {3, gx::range<int64_t>(0, n - 1)}});
             int64_t held = *gx::chance(25) ? *gx::range<int64_t>(0, n) : -1;
             int64_t opc = *gx::weighted<int64_t>({{12, rc::gen::just<int64_t>(0)}, {1, rc::gen::just<int64_t>(8)}, {1, rc::gen::just<int64_t>(1)}, {1, gx::range<int64_t>(0, 255)}});
-            c.cfg = {n, p, *gx::pick({0, 0, 1, 2}), *gx::range<int64_t>(0, T_NCLASSES - 1), opc, *gx::pick({0, 1}), *gx::pick({0, 1}), held,
+            c.cfg = {n, p, *gx::pick({0, 0, 1, 2, 3}), *gx::range<int64_t>(0, T_NCLASSES - 1), opc, *gx::pick({0, 1}), *gx::pick({0, 1}), held,
                      *gx::bnd({0, 1, 0xFFFF}, 0, 0xFFFF, 1, 1), *gx::bnd({0, 1, 0xFFFF}, 0, 0xFFFF, 1, 1), *gx::pick({0, 1}), *gx::pick({0, 0, 1, 3}), *gx::pick({0, 0, 0, 0, 1})};
             return c;
         });
